@@ -40,7 +40,13 @@ FINDING_REGIONS = ["F_ptrDict", "F_nilStructDeref"]
 
 def make_case(cid, iface, calls):
     modpath = "verifcases/c_" + cid
-    files = restgen.render_package("cs", [iface], modpath=modpath)
+    if "layout" not in iface:
+        # how rest.go declares the interface (single declaration / inside a parenthesised type group ...): a function of the
+        # interface's content, so that the random stream of the generator is not touched
+        import zlib
+        h = zlib.crc32(("%s|%s" % (iface["name"], "|".join(m["name"] + m["path"] for m in iface["methods"]))).encode())
+        iface["layout"] = restgen.DECL_LAYOUTS[(h // 7) % len(restgen.DECL_LAYOUTS)] if h % 7 < 3 else "single"
+    files = restgen.render_package("cs", [iface], modpath=modpath, layout=iface["layout"])
     args = ["rest", "-type=" + iface["name"]]
     blob = json.dumps({"iface": iface, "calls": [{k: v for k, v in c.items() if k != "m"} for c in calls]})
     return {"id": cid, "iface": iface, "calls": calls, "files": files, "runs": [{"args": args}],
@@ -488,6 +494,7 @@ def sig(c, region, dk, im, m):
 def features(c):
     f = []
     i = c["iface"]
+    f.append("decl-layout:" + i.get("layout", "single"))
     if i.get("headers"):
         f.append("iface-headers")
         if i.get("hbreaks"):
